@@ -930,12 +930,19 @@ def _parse_phase_numpydoc_and_google(
                                             )
                                         )
                                         if style is Style.google
-                                        else {
-                                            "typ": scanned[return_tokens[0]][0][0],
-                                            "doc": white_spacer(
-                                                scanned[return_tokens[0]][0][1]
-                                            ),
-                                        }
+                                        else dict(
+                                            typ=scanned[return_tokens[0]][0][0],
+                                            # A return entry may be typed without being described
+                                            **(
+                                                {
+                                                    "doc": white_spacer(
+                                                        scanned[return_tokens[0]][0][1]
+                                                    )
+                                                }
+                                                if len(scanned[return_tokens[0]][0]) > 1
+                                                else {}
+                                            )
+                                        )
                                     ),
                                 ),
                                 infer_type=infer_type,
